@@ -1,13 +1,14 @@
 package main
 
 import (
-	"encoding/json"
 	"bytes"
+	"encoding/json"
 	"errors"
+	"fmt"
 	"io"
 	stdslog "log/slog"
 	"os"
-	"fmt"
+	"strconv"
 	"strings"
 
 	"github.com/hedzr/is"
@@ -120,6 +121,26 @@ func modeAlphabet(full bool) []modeCall {
 			modeCall{"New(opt WithColorMode(false)) without a name", func(t *slog.Entry, seq int) (*slog.Entry, bool) {
 				return t.New(slog.WithColorMode(false)), true
 			}, colorNext(false)},
+			// an anonymous child; if its generated name ends in a NUMBER, a sibling named by the application in the same style
+			// (two further on); then WithJSONMode(true): a NEW child in JSON, the named sibling keeps its format
+			modeCall{"WithJSONMode(true) next to a sibling named like a generated name", func(t *slog.Entry, seq int) (*slog.Entry, bool) {
+				a := t.New()
+				nm := a.Name()
+				i := len(nm)
+				for i > 0 && nm[i-1] >= '0' && nm[i-1] <= '9' {
+					i--
+				}
+				var sib *slog.Entry
+				if i < len(nm) && len(nm)-i < 9 {
+					k, _ := strconv.Atoi(nm[i:])
+					sib = t.New(nm[:i] + strconv.Itoa(k+2))
+				}
+				b := t.WithJSONMode(true)
+				if b == a || (sib != nil && b == sib) {
+					c11clash = fmt.Sprintf("WithJSONMode(true) handed out an existing child (%q) instead of a new one: that child's format is no longer decided by its own mode calls (siblings: %q generated, %v named by the application)", b.Name(), nm, sib != nil)
+				}
+				return b, true
+			}, jsonNext(true)},
 			modeCall{"New(\"\",opt WithColorMode(true))", func(t *slog.Entry, seq int) (*slog.Entry, bool) {
 				return t.New("", slog.WithColorMode(true)), true
 			}, colorNext(true)},
